@@ -676,6 +676,8 @@ def pp(v):
             return "%s(%s)" % (v.args[0], ", ".join(pp(a) for a in v.args[1:]))
         if v.op == "Mod" and len(v.args) == 2:
             return "(%s) %% %s" % (pp(v.args[0]), pp(v.args[1]))
+        if v.op in ("BitAnd", "BitOr", "BitXor", "RShift", "FloorDiv") and len(v.args) == 2:
+            return "(%s) %s %s" % (pp(v.args[0]), {"BitAnd": "&", "BitOr": "|", "BitXor": "^", "RShift": ">>", "FloorDiv": "//"}[v.op], pp(v.args[1]))
         if v.op == "elem":
             return "<each of %s>" % pp(v.args[0])
         if v.op == "index":
